@@ -96,3 +96,9 @@ End Dispatch.
 Lemma damaged_record_undecodable unjson gunzip :
   decode_release unjson gunzip "!! not a release !!" = None.
 Proof. reflexivity. Qed.
+
+Theorem gzip_magic_test (b : string) :
+  (has_gzip_magic b = true <->
+   exists c t, b = String "031"%char (String "139"%char (String "008"%char (String c t)))) /\
+  (forall t, has_gzip_magic (String "{"%char t) = false).
+Proof. split; [apply has_gzip_magic_spec|apply brace_not_magic]. Qed.
